@@ -22,6 +22,7 @@ THEOREMS = [
     "c11_post_protocol_headers", "c11_post_session_header", "c11_post_authorization", "c11_params_auth_headers",
     "c11_post_custom_headers", "c11_params_translated", "c11_params_accept_iff", "c11_params_url_normalised",
     "c11_stream_chunk_independent", "c11_stream_plain_encodings",
+    "c11_options_irrelevant", "c11_repeated_failures", "c11_instances_independent",
 ]
 RULE = (
     "behaviours: every cell of {200,202,204,301,404,500} x {application/json, text/event-stream, text/plain, absent} x "
@@ -128,6 +129,10 @@ def oracle(case, obs):
         r2 = oracle(case, dict(obs["round2"], round2=None))
         if r2 is not None:
             return (r2[0], "second connection with the same parameters object: " + r2[1], r2[2])
+    for j, other in enumerate(obs.get("others") or []):
+        r2 = oracle(case, dict(other, others=None))
+        if r2 is not None:
+            return (r2[0], f"transport {j + 2} of {len(obs['others']) + 1} alive in the process: " + r2[1], r2[2])
     all_reqs = case["reqs"]
     reqs = [r for r in all_reqs if r.get("garbage") is None]
     T = [m for m in obs["transcript"] if not (m["id"] == {"s": H.FENCE_ID})]
@@ -146,8 +151,9 @@ def oracle(case, obs):
                 mangled_ids.add(canon(G.idtag(m.get("id"))))
 
     # later requests are processed whatever happened before
-    if not obs["fence"]:
-        return ("sender-stopped", f"the request sent after the sequence was never answered ({obs['posts']} POSTs seen)", {"fence": True})
+    if obs["fence"] is not True:
+        how = "was answered by the transport itself instead of being POSTed" if obs["fence"] else "was never answered"
+        return ("sender-stopped", f"the request sent after the sequence {how} ({obs['posts']} POSTs seen for {len(reqs) + 1} messages)", {"fence": True})
 
     # loss-free, ordered pass-through
     for j, e in enumerate(exps):
@@ -170,8 +176,9 @@ def oracle(case, obs):
                     return ("reordered-or-duplicated/unlabelled", f"request {j}: delivered messages are not a subsequence of the body", {"request": j})
                 k += 1
 
-    # nothing invented
-    for m in T:
+    # nothing invented (not judged when a body's reading is left to the code: see G.expect, "free")
+    free = any(e.get("free") for e in exps)
+    for m in ([] if free else T):
         if m["id"] is None and m["kind"] not in ("request", "notification"):
             continue  # id-less terminal / empty message: not an observable of the property
         if canon(m) in all_srv:
@@ -219,7 +226,20 @@ def oracle(case, obs):
 
 class _Base(Suite):
     def impl_batch(self, cases):
-        return H.run_cases(cases)
+        # a single case (shrinking, replay) runs in a process no other case has touched; in a batch, a case that
+        # seems to violate the property is confirmed the same way — state left behind by EARLIER cases (class-level
+        # or module-level state of the code under test) must not make an input look failing that does not fail alone
+        if len(cases) == 1:
+            return [H.run_pristine(cases[0])]
+        obs = H.run_cases(cases)
+        for i, c in enumerate(cases):
+            try:
+                bad = oracle(c, obs[i]) is not None
+            except Exception:
+                bad = True
+            if bad:
+                obs[i] = H.run_pristine(c)
+        return obs
 
     def model_line(self, case):
         return H.model_line(case)
@@ -238,6 +258,9 @@ class _Base(Suite):
             return "transcript or headers differ"
         if o.get("round2") is not None and not H.same(case, H.comparable_impl(o["round2"]), m):
             return "second connection differs"
+        for other in o.get("others") or []:
+            if not H.same(case, H.comparable_impl(other), m):
+                return "a second transport in the same process behaves differently"
         return None
 
     def oracle(self, case, o):
@@ -264,7 +287,7 @@ class Singles(_Base):
 
     def cases(self, ctx, budget):
         ctx.exhaustive_parts.append("singles: every cell of status x content-type x body class x request kind; every transport exception x id shape")
-        return G.singles()
+        return G.decorate(G.singles(), salt=0)
 
 
 class SseEncodings(_Base):
@@ -273,7 +296,7 @@ class SseEncodings(_Base):
     def cases(self, ctx, budget):
         if budget != "quick":
             ctx.exhaustive_parts.append("sse-encodings: every combination of event field x data space x eol x ignored lines x ending x multi-line x content")
-        return G.sse_encodings(stride=1 if budget != "quick" else 3)  # 3 is coprime to the periods (2, 4) of the derived choices
+        return G.decorate(G.sse_encodings(stride=1 if budget != "quick" else 3), salt=2)  # 3 is coprime to the periods (2, 4) of the derived choices
 
     def kind(self, case, o):
         body = case["reqs"][0]["b"]["body"]
@@ -292,7 +315,7 @@ class Sequences(_Base):
         rng = ctx.sub_rng("c11-seq", budget)
         n = {"quick": 400, "thorough": 30000, "search": 8000}[budget]
         out += G.sampled_sequences(rng, n, maxlen=4)
-        return out
+        return G.decorate(out, salt=3)
 
     def kind(self, case, o):
         return f"seq/len{len(case['reqs'])}"
@@ -304,7 +327,7 @@ class Seeded(_Base):
     def cases(self, ctx, budget):
         rng = ctx.sub_rng("c11-rand", budget)
         n = {"quick": 800, "thorough": 40000, "search": 15000}[budget]
-        return [G.random_single(rng, k) for k in range(n)]
+        return G.decorate([G.random_single(rng, k) for k in range(n)], salt=5)
 
 
 class Hardening(_Base):
@@ -319,10 +342,10 @@ class Hardening(_Base):
             "defensive handlers 120/127-128/330-333/431-432/453-454, the streaming SSE branch 352-391 (dead: httpx responses always "
             "have .text) and the pending-future branch 473-480 (dead: the unified message class always has a `method` attribute); "
             "the hard/* buckets of the distribution name the sweep classes")
-        return G.hardening(ctx.sub_rng("c11-hard", budget), budget)
+        return G.decorate(G.hardening(ctx.sub_rng("c11-hard", budget), budget), salt=7) + G.hardening2(ctx.sub_rng("c11-hard2", budget), budget)
 
     def kind(self, case, o):
-        return "hard/" + case.get("hk", "?")
+        return "hard/" + case.get("hk", "?") + ("/debug-logging" if case.get("debug") else "")
 
 
 HTTPX_OWN = {"host", "content-length", "accept-encoding", "connection"}
@@ -627,4 +650,5 @@ class RealSocket(_Base):
 
 
 def suites():
+    H.start_zygote()
     return [Singles(), SseEncodings(), Sequences(), Seeded(), Hardening(), Headers(), Params(), StreamBranch(), Render(), RealSocket()]
